@@ -61,12 +61,17 @@ def make_data(lay) -> np.ndarray:
     if kind == "mid":
         # middle half of the representable range (used by zero-DM removal so results stay in range)
         if nbits == 32:
-            return rng.integers(50, 151, size=(n, nchans)).astype(np.float32)
-        if nbits == 16:
-            return rng.integers(20000, 40000, size=(n, nchans)).astype(np.uint16)
-        lo = {1: 0, 2: 1, 4: 5, 8: 64}[nbits]
-        hi = {1: 1, 2: 2, 4: 10, 8: 191}[nbits]
-        return rng.integers(lo, hi + 1, size=(n, nchans)).astype(np.uint8)
+            x = rng.integers(50, 151, size=(n, nchans)).astype(np.float32)
+        elif nbits == 16:
+            x = rng.integers(20000, 40000, size=(n, nchans)).astype(np.uint16)
+        else:
+            lo = {1: 0, 2: 1, 4: 5, 8: 64}[nbits]
+            hi = {1: 1, 2: 2, 4: 10, 8: 191}[nbits]
+            x = rng.integers(lo, hi + 1, size=(n, nchans)).astype(np.uint8)
+        if lay["data_seed"] % 3 == 0 and n >= 4:
+            # dropped packets: a few time samples are blank (all channels zero), as in real observations
+            x[rng.choice(n, size=max(1, n // 8), replace=False)] = 0
+        return x
     if kind == "small":
         # values 0..7 (or the depth's range): per-channel float32 sums stay exact (< 2^24) over millions of samples
         hi = min(8, 1 << min(nbits, 8))
@@ -83,6 +88,22 @@ def make_data(lay) -> np.ndarray:
         if kind == "f32pos":
             return rng.integers(1, 200, size=(n, nchans)).astype(np.float32)
         return rng.integers(-1000, 1001, size=(n, nchans)).astype(np.float32)
+    if kind == "full" and nbits != 32 and lay["data_seed"] % 5 in (0, 1):
+        # what observations look like rather than what a uniform generator produces: long runs of identical values with
+        # all-zero stretches and saturated samples (seed % 5 == 0), or an exactly periodic alternating pattern (== 1)
+        top = (1 << nbits) - 1
+        dt = np.uint16 if nbits == 16 else np.uint8
+        if lay["data_seed"] % 5 == 0:
+            x = np.empty((n, nchans), dtype=np.int64)
+            t = 0
+            while t < n:
+                ln = int(rng.integers(1, max(2, n // 2 + 1)))
+                x[t : t + ln] = rng.choice([0, 0, top, int(rng.integers(0, top + 1))], size=(1, nchans))
+                t += ln
+            return x.astype(dt)
+        per = int(rng.integers(1, 5))
+        pat = rng.choice([0, top, top // 2 + 1], size=(per, nchans))
+        return np.tile(pat, (n // per + 1, 1))[:n].astype(dt)
     if nbits == 16:
         return rng.integers(0, 65536, size=(n, nchans)).astype(np.uint16)
     if kind == "pos":
@@ -222,3 +243,18 @@ def open_relative(paths, reader_cls, data_dir, decoy=True):
     rd = reader_cls(names if len(names) > 1 else names[0])
     os.chdir(dec)
     return rd
+
+
+def omit_defaults(kw, on, total=None):
+    """The same call written the way a user writes it: arguments that equal the documented defaults (start=0,
+    nsamps=None) are left out, and so is gulp when one default-sized block (16384 samples) covers the request anyway."""
+    if not on:
+        return kw
+    out = dict(kw)
+    if out.get("start", 1) == 0:
+        out.pop("start")
+    if "nsamps" in out and out["nsamps"] is None:
+        out.pop("nsamps")
+    if total is not None and total <= 16384 and out.get("gulp", 0) >= total:
+        out.pop("gulp")
+    return out
